@@ -1,6 +1,10 @@
 package fsm
 
-import "math/big"
+import (
+	"math/big"
+
+	"github.com/canopy-network/canopy/lib/crypto"
+)
 
 // helpers shared by the fsm harnesses (pure Go; executed symbolically like any other code)
 
@@ -23,3 +27,5 @@ func errOrNil(e interface{ Error() string }) error {
 	}
 	return e
 }
+
+func zzCryptoAddr(i int) crypto.AddressI { return crypto.NewAddress(zzAddr(i)) }
